@@ -51,6 +51,16 @@ type propCfg struct {
 }
 
 var props = map[string]*propCfg{
+	"C18": {
+		ID: "C18", Pkg: "./c18/", Level: "exploration",
+		Quick:    tierCfg{Runs: 8000, Budget: 200 * time.Second, Workers: 16},
+		Thorough: tierCfg{Runs: 2000000, Budget: 40 * time.Minute, Workers: 16},
+		Assume: []string{
+			"task runners are synthetic (they park in the simulator and fill a unique function of the inputs they saw); the pkg/tool/* runners are out of scope",
+			"interleavings are decided at task-goroutine start and at the runner's park point; the controller goroutine runs between quiescent points without preemption",
+			"the reference model of the generated workflow (which edges are mandatory under which flow.Config) is correct",
+		},
+	},
 	"C14": {
 		ID: "C14", Pkg: "./c14/", Level: "exploration",
 		Quick:    tierCfg{Runs: 24000, Budget: 150 * time.Second, Workers: 16},
@@ -451,6 +461,12 @@ func replayOnce(bin string, p *propCfg, file string) (class, key string, ok bool
 }
 
 func replayCmd(p *propCfg, file string) int {
+	if abs, err := filepath.Abs(file); err == nil {
+		file = abs
+	}
+	if _, err := os.Stat(file); err != nil {
+		trouble("replay file: %v", err)
+	}
 	bin := buildWorker(p)
 	cls, key, ok, msg := replayOnce(bin, p, file)
 	fmt.Print(msg)
@@ -461,6 +477,10 @@ func replayCmd(p *propCfg, file string) int {
 		}
 		fmt.Printf("VIOLATION property=%s replay=%s\n  class=%s key=%s\n", p.ID, file, cls, key)
 		return 1
+	}
+	if strings.HasPrefix(msg, "worker failed") {
+		fmt.Printf("HARNESS-TROUBLE: replay worker failed\n")
+		return 2
 	}
 	if cls == "" {
 		fmt.Printf("replay of %s: no violation on this tree\n", file)
